@@ -699,6 +699,26 @@ def nontrivial(c, o):
     return (c["op"], c.get("family"), o["r"], o["newer"])
 
 
+def robust_pipeline(ctx, target, cases, *args, **kw):
+    """ctx.pipeline, repeated (after rebuilding this property's cone) when another check rebuilt
+    gen/Consts.vo between our proof build and our case evaluation (coqc then reports
+    'inconsistent assumptions over library V.gen.Consts'; the shared driver has no guard for that)"""
+    import copy as _copy
+    for attempt in range(3):
+        snap = (len(ctx.tie_breaks), len(ctx.impl_viol), _copy.deepcopy(ctx.cov), set(ctx._nontrivial))
+        ctx.pipeline(cases, *args, **kw)
+        new = ctx.tie_breaks[snap[0]:]
+        if attempt < 2 and any(k == "model-eval" and "inconsistent assumptions" in str(d) for k, _n, d in new):
+            del ctx.tie_breaks[snap[0]:]
+            del ctx.impl_viol[snap[1]:]
+            ctx.cov = snap[2]
+            ctx._nontrivial = snap[3]
+            ctx.log("gen/Consts.vo was rebuilt by another check meanwhile: rebuilding %s and repeating the run" % target)
+            ctx.coq_make([target])
+            continue
+        return
+
+
 def run(ctx):
     ctx.regen_consts()
     ctx.prove("props/C13.v", THEOREMS, extra_trusted=[
@@ -711,7 +731,7 @@ def run(ctx):
         "independent msgpack/keccak-256 implementation, canonicaliser)"])
     binary = ctx.cargo_build("c13")
     cases = ctx.corpus() + ([] if ctx.replay else gen(ctx))
-    ctx.pipeline(cases, binary, oracle, model_term, IMPORTS, nontrivial=nontrivial, show=show, shard_size=120,
+    robust_pipeline(ctx, "props/C13.v", cases, binary, oracle, model_term, IMPORTS, nontrivial=nontrivial, show=show, shard_size=120,
                  relation="PaymentQuote::{bytes_for_sig,hash,peer_id,check_is_signed_by_claimed_peer,has_expired,"
                           "is_newer_than,historical_verify}, ProofOfPayment::{verify_for,payees,quotes_by_peer,has_expired}, "
                           "SwarmDriver::verify_peer_quote == Quote.{bytes_for_signing,hash_preimage,quote_peer_id,check_signed,"
